@@ -159,6 +159,20 @@ def run(tier, seed, replay=None):
         n, d, th, pairs = random_case(rng)
         cases.append({"N": n, "Pairs": pairs, "Den": d, "Theta": th, "K": rng.choice([0, 1, 2, 2, 3, 4]), "Mode": rng.choice(MODES),
                       "Reps": 2, "Files": rng.choice([1, 2, 5])})
+    # the same contract through the path the clone service takes (detector configured with the mode, SetUseLSH off / on, GroupClonePairs): a sample of the
+    # cases above, and sparse pair lists (chains, cycles without diagonals: most pairs ABSENT) for every mode
+    via_cases = []
+    for c in rng.sample(cases, min(len(cases), 600 if tier == "quick" else 6000)):
+        via_cases.append(dict(c, Via=rng.choice(["detector", "detector-lsh"]), Reps=1))
+    for mode in MODES:
+        for n in (3, 4, 5, 6, 8):
+            for shape in ("chain", "cycle", "star"):
+                prs = [[v, v + 1, theta + 4] for v in range(n - 1)] if shape != "star" else [[0, v, theta + 4] for v in range(1, n)]
+                if shape == "cycle":
+                    prs.append([n - 1, 0, theta + 4])
+                for via in ("detector", "detector-lsh"):
+                    via_cases.append({"N": n, "Pairs": prs, "Den": den, "Theta": theta, "K": 2, "Mode": mode, "Reps": 1, "Files": 2, "Via": via})
+    cases += via_cases
     go = C.harness_batch("group", cases)
     lines = []
     for c, g in zip(cases, go):
@@ -178,6 +192,8 @@ def run(tier, seed, replay=None):
             res.violation("harness: " + g["error"], {"case": c})
             continue
         hist[c["Mode"]]["cases"] += 1
+        if c.get("Via"):
+            hist["via_" + c["Via"]] = hist.get("via_" + c["Via"], 0) + 1
         r0 = g["runs"][0]
         if r0["groups"]:
             hist[c["Mode"]]["with_groups"] += 1
